@@ -32,6 +32,7 @@ def run(index, rep):
     rep.guard(avg, index, rep)
     rep.guard(korea, index, rep)
     rep.guard(sentinel, index, rep)
+    rep.guard(sibling_columns, index, rep)
 
 
 def load_table(index):
@@ -633,3 +634,117 @@ def describe(rep):
     )
     rep.assumptions = ["CSV parsing of the checked-in artefact; np.isclose default tolerances for the seasonality sum",
                        "weights sum to one (asserted by the helper) so that 1 - rejected weight = accepted weight"]
+
+
+# ------------------------------------------------------------------------------------------------ sibling columns of the import scripts
+
+def _script_frames(mod):
+    """the import script executed abstractly, statement by statement at module level: `pd.read_excel(...)[[raw columns]]` is a frame whose
+    column c holds the atom ('raw', c); `df.columns = [...]` renames in order; column stores and loads, loops over literal lists and
+    ranges, list comprehensions and string building are evaluated by the interpreter.  -> {frame name: {column: value}} for the frames
+    whose every statement was understood (a frame touched by anything else is dropped)"""
+    from .symx import Interp, Obj, PDict, PList, Opaque, Unsupported as _U, Abort as _A, Fork as _F
+    it = Interp()
+
+    class Src:
+        pass
+
+    def hook(interp, d, a, kw, node):
+        if d in ("pd.read_excel", "pd.read_csv"):
+            return Obj(None, {"_frame_source": True}, "sheet")
+        if d in ("print", "pd.ExcelFile", "Path", "git.Repo"):
+            return Opaque(d)
+        return NotImplemented
+
+    it.call_hook = hook
+    orig_getitem, orig_assign = it.getitem, it.assign
+
+    def getitem(obj, key, node):
+        if isinstance(obj, Obj) and obj.attrs.get("_frame_source") and isinstance(key, PList) and all(isinstance(k, str) for k in key.items):
+            fr = PDict()
+            for k in key.items:
+                dk = it.dkey(k, node)
+                fr.d[dk] = Rat.atom(("raw", k))
+                fr.k[dk] = k
+            fr.is_frame = True
+            return fr
+        return orig_getitem(obj, key, node)
+
+    def assign(tgt, val, env):
+        if isinstance(tgt, ast.Attribute) and tgt.attr == "columns":
+            fr = it.eval(tgt.value, env)
+            if isinstance(fr, PDict) and getattr(fr, "is_frame", False) and isinstance(val, PList) and len(val.items) == len(fr.d) \
+                    and all(isinstance(k, str) for k in val.items):
+                vals = list(fr.d.values())
+                fr.d.clear()
+                fr.k.clear()
+                for k, v in zip(val.items, vals):
+                    dk = it.dkey(k, tgt)
+                    fr.d[dk] = v
+                    fr.k[dk] = k
+                return
+            raise _U("columns assignment", tgt)
+        return orig_assign(tgt, val, env)
+
+    it.getitem, it.assign = getitem, assign
+    env = {}
+    dropped = set()
+    for st in mod.body:
+        if isinstance(st, (ast.Import, ast.ImportFrom, ast.FunctionDef, ast.ClassDef)):
+            continue
+        frames_now = {n for n, v in env.items() if isinstance(v, PDict) and getattr(v, "is_frame", False)}
+        names = {n.id for n in ast.walk(st) if isinstance(n, ast.Name)}
+        if isinstance(st, ast.Expr) and isinstance(st.value, ast.Call) and isinstance(st.value.func, ast.Attribute) and st.value.func.attr in ("to_csv", "head", "info"):
+            continue
+        try:
+            it.exec(st, env)
+        except (_U, _A, _F, Exception):
+            dropped |= names & frames_now
+            for t in (st.targets if isinstance(st, ast.Assign) else []):
+                if isinstance(t, ast.Name):
+                    env.pop(t.id, None)
+    out = {}
+    for n, v in env.items():
+        if isinstance(v, PDict) and getattr(v, "is_frame", False) and n not in dropped:
+            out[n] = {str(v.k.get(dk, dk)): val for dk, val in v.d.items() if isinstance(val, Rat)}
+    return out
+
+
+def sibling_columns(index, rep):
+    """columns of one family written by an import script (stocks_kcals_jan .. stocks_kcals_dec) are derived the same way: each from exactly
+    one raw column, all with the same factor"""
+    rule = "C17.SIBLING"
+    n = 0
+    for rel in index.py_files(SCRIPTS):
+        if not os.path.basename(rel).startswith("create_"):
+            continue
+        try:
+            frames = _script_frames(index.module(rel))
+        except Exception:
+            continue
+        for fr, cols in frames.items():
+            fam = {}
+            for c, v in cols.items():
+                if "_" in c:
+                    fam.setdefault(c.rsplit("_", 1)[0], []).append((c, v))
+            for prefix, members in fam.items():
+                if len(members) < 6:
+                    continue
+                n += 1
+                factors = {}
+                bad = []
+                for c, v in members:
+                    raws = [a for a in v.atoms() if isinstance(a, tuple) and a and a[0] == "raw"]
+                    if len(raws) != 1:
+                        bad.append(f"{c} is computed from {len(raws)} raw columns")
+                        continue
+                    f = v / Rat.atom(raws[0])
+                    factors.setdefault(str(f) if f.is_const() else "non-constant", []).append(c)
+                if len(factors) > 1:
+                    minority = min(factors.items(), key=lambda t: len(t[1]))
+                    bad.append(f"{minority[1]} get the factor {minority[0]}, the other columns of the family {max(factors.items(), key=lambda t: len(t[1]))[0]}")
+                rep.check(not bad, rule, f"{os.path.basename(rel)}:{fr}:{prefix}_* ({len(members)} columns)",
+                          "the columns of one family are not derived alike: " + "; ".join(bad), loc=rel)
+    if n < 1:
+        raise AnalysisError("no import script with a family of sibling columns was understood")
+    rep.require_min(rule, 1)
